@@ -80,6 +80,10 @@ func exec(op string) vlib.Res {
 		if f[1] == "new" || need(9) {
 			return execDeleg(f)
 		}
+	case "fallback run":
+		if need(5) {
+			return execFallback(f)
+		}
 	case "nslookup run":
 		if need(10) {
 			return execNsLookup(f)
@@ -1075,6 +1079,25 @@ func gen(r *vlib.R, n int, tier string, emit func(string)) {
 		case k < 23:
 			n -= genDelegCase(r, local, emit) - 1
 		default:
+			{
+				// pickFallbackResponse: 0-4 negative replies, 0-2 invalid referrals, 0-3 failures - never all three empty
+				var rcs []string
+				for i := r.Intn(5); i > 0; i-- {
+					rcs = append(rcs, fmt.Sprint(vlib.Pick(r, []int{3, 2, 5, 2, 3, 4, 9})))
+				}
+				nc := r.Intn(3)
+				fatal := ""
+				for i := r.Intn(4); i > 0; i-- {
+					fatal += vlib.Pick(r, []string{"n", "n", "n", "w", "a"})
+				}
+				if len(rcs) == 0 && nc == 0 && fatal == "" {
+					fatal = "n"
+				}
+				if fatal == "" {
+					fatal = "-"
+				}
+				emit(fmt.Sprintf("fallback run %s %d %s", listOrDash(rcs), nc, fatal))
+			}
 			emit(fmt.Sprintf("clr run %s %s %d %d", vlib.B(r.Bool()), vlib.Pick(r, []string{"-", "-", "f", "t"}), r.Intn(3), r.Intn(3)))
 			emit("glue usable " + genAddrHex(r, local))
 		}
@@ -1297,6 +1320,75 @@ func delegationGuardUnconditional(file string) bool {
 			}
 		}
 		return guardAt >= 0 && useAt > guardAt
+	}
+	return false
+}
+
+// lookupSetsAside inspects Resolver.lookup: the branch guarded by `!validReferral(...)` appends the reply to
+// configErrors and goes on waiting (continue, no return) - an invalid referral never returns from the loop -,
+// and the function ends in `return pickFallbackResponse(responseErrors, configErrors, fatalErrors)`.
+func lookupSetsAside(file string) bool {
+	fset := token.NewFileSet()
+	f, err := parser.ParseFile(fset, file, nil, 0)
+	if err != nil {
+		return false
+	}
+	for _, d := range f.Decls {
+		fd, ok := d.(*ast.FuncDecl)
+		if !ok || fd.Name.Name != "lookup" || fd.Body == nil || len(fd.Body.List) == 0 {
+			continue
+		}
+		aside := false
+		ast.Inspect(fd.Body, func(n ast.Node) bool {
+			ifs, ok := n.(*ast.IfStmt)
+			if !ok {
+				return true
+			}
+			negated := false
+			ast.Inspect(ifs.Cond, func(x ast.Node) bool {
+				if u, ok := x.(*ast.UnaryExpr); ok && u.Op == token.NOT {
+					if c, ok := u.X.(*ast.CallExpr); ok {
+						if id, ok := c.Fun.(*ast.Ident); ok && id.Name == "validReferral" {
+							negated = true
+						}
+					}
+				}
+				return true
+			})
+			if !negated {
+				return true
+			}
+			appends, continues, returns := false, false, false
+			ast.Inspect(ifs.Body, func(x ast.Node) bool {
+				switch v := x.(type) {
+				case *ast.AssignStmt:
+					if id, ok := v.Lhs[0].(*ast.Ident); ok && id.Name == "configErrors" {
+						appends = true
+					}
+				case *ast.BranchStmt:
+					if v.Tok == token.CONTINUE {
+						continues = true
+					}
+				case *ast.ReturnStmt:
+					returns = true
+				}
+				return true
+			})
+			if appends && continues && !returns {
+				aside = true
+			}
+			return true
+		})
+		last, ok := fd.Body.List[len(fd.Body.List)-1].(*ast.ReturnStmt)
+		ends := false
+		if ok && len(last.Results) == 1 {
+			if c, ok := last.Results[0].(*ast.CallExpr); ok {
+				if id, ok := c.Fun.(*ast.Ident); ok && id.Name == "pickFallbackResponse" && len(c.Args) == 3 {
+					ends = true
+				}
+			}
+		}
+		return aside && ends
 	}
 	return false
 }
@@ -1547,6 +1639,8 @@ func facts() map[string]any {
 			c := callOrder(rfile, "checkHosts", "lookupNSAddrV4", "lookupNSAddrV6", "internalExchange", "subQuery")
 			return c[0] >= 0 && c[1] >= 0 && c[2] < 0 && c[3] < 0
 		}(),
+		// lookup's result loop sets a referral validReferral refuses aside and keeps waiting; pickFallbackResponse decides at the end
+		"shape_lookup_sets_invalid_referrals_aside": lookupSetsAside(rfile),
 		"in_zone_probe":        inZone,
 		"question_match_probe": qm,
 		"progressing_probe":    prog,
